@@ -29,7 +29,7 @@ from values import *
 
 # families the rewrite system is expected to close (confirmed on the reference tree); anything else is "undecided"
 EXPECTED_UNDECIDED_ADTS = {
-    'aes::autodetect', 'aes::ni', 'aes::armv8', 'aria::Aria', 'idea::Idea', 'kuznyechik::Kuznyechik',
+    'aes::autodetect', 'aes::ni', 'aes::armv8', 'idea::Idea', 'kuznyechik::Kuznyechik',
     'kuznyechik::KuznyechikEnc', 'kuznyechik::KuznyechikDec',
     'speck_cipher::Speck48_72', 'speck_cipher::Speck48_96', 'speck_cipher::Speck96_96', 'speck_cipher::Speck96_144',
 }
@@ -48,6 +48,10 @@ BITLEVEL = {
     'serpent::Serpent': dict(crate='serpent', pairs=[('sbox_e%d' % k, 'sbox_d%d' % k) for k in range(8)], kind='value', words=4),
     'des::des::Des': dict(crate='des', pairs=[], kind=None, words=0),
     'gift_cipher::Gift128': dict(crate='gift_cipher', pairs=[], kind=None, words=0),
+    # ARIA decrypts with the encryption routine on a second key array dk = (ek reversed, inner keys through the
+    # diffusion layer): the instance must be the one KeyInit::new builds (ctor=True); the diffusion layer is an affine
+    # involution (carry-free multiplications become byte placements) and SB1/SB3, SB2/SB4 are inverse constant tables
+    'aria::Aria': dict(crate='aria', pairs=[], kind=None, words=0, ctor=True),
 }
 
 
@@ -137,6 +141,24 @@ def expected_undecided(tyname, cfgflags=()):
     return any(tyname == a or tyname.startswith(a + '::') or tyname.startswith(a + '<') for a in EXPECTED_UNDECIDED_ADTS)
 
 
+def ctor_self_builder(m, ty_s):
+    """the instance KeyInit::new builds from a symbolic key"""
+    def build(I, ty):
+        import engine
+        from interp import State
+        news = [f for f in m.fns if f.get('impl_trait') == 'crypto_common::KeyInit' and f.get('name') == 'new'
+                and f['crate'] in REPO_CRATES and m.ty(f['mir']['locals'][0])['s'] == ty_s]
+        if not news:
+            raise Exception('no KeyInit::new for the type')
+        st0 = State()
+        args = engine.default_args(I, st0, news[0])
+        status, v = engine.run(I, news[0]['id'], args, st0)
+        if status != 'ok':
+            raise Exception('KeyInit::new: %s %s' % (status, str(v)[:150]))
+        return v
+    return build
+
+
 def self_builder(group_key):
     def build(I, ty):
         v = I.top(ty, 'self')
@@ -190,7 +212,7 @@ def prove_type(job):
                 else:
                     I.summaries = SUMMARIES.get(tyname)
                 try:
-                    ok, detail = equiv.roundtrip(m, ty_s, self_builder(gk), first)
+                    ok, detail = equiv.roundtrip(m, ty_s, ctor_self_builder(m, ty_s) if (bl and bl.get('ctor')) else self_builder(gk), first)
                 except Exception as e:
                     import traceback
                     ok, detail = False, 'analysis error: %r %s' % (e, traceback.format_exc()[-300:])
